@@ -115,6 +115,20 @@ fn oracle(ctx: &Ctx, d: &Delivery, res: &str, puts: &[(libp2p::kad::RecordKey, l
         }
         // C07 (per delivery; the regress clause only for per-key-serialised histories)
         let prev_desc = prev.as_ref().map(|p| describe(key, p));
+        // a held record is never replaced by a record of another kind (a scratchpad and a transaction set of
+        // one owner share a key): part of "never regress / only grows"; per-key-serialised histories only
+        if let Some(pd) = &prev_desc {
+            let fam = |d: &str| match d.chars().next() {
+                Some('C') => 0,
+                Some('S') => 1,
+                Some('T') => 2,
+                Some('R') | Some('A') => 3,
+                _ => 9,
+            };
+            if fam(pd) != fam(&desc) && !ctx.overlapped {
+                out.oracle_fail("C07:cross-kind-never-overwrites", &hist, &format!("{pd} held at key {} was replaced by {desc}", key_str(key)));
+            }
+        }
         if let Some((n, valid)) = pad_counter(&desc) {
             if !valid {
                 out.oracle_fail("C07:stored-scratchpad-valid", &hist, &format!("scratchpad with invalid signature stored at {}", key_str(key)));
@@ -148,7 +162,9 @@ fn oracle(ctx: &Ctx, d: &Delivery, res: &str, puts: &[(libp2p::kad::RecordKey, l
                 _ => vec![],
             };
             for n in &new_ids {
-                if !prev_ids.contains(n) && !delivered.contains(n) {
+                // (under overlapping validations of one key the merged-in local set may be a stale read — K-f —
+                // so "held" is judged on per-key-serialised histories only; invalid entries are judged everywhere above)
+                if !ctx.overlapped && !prev_ids.contains(n) && !delivered.contains(n) {
                     out.oracle_fail("C07:only-valid-delivered-entries", &hist, &format!("entry {n} at {} was neither held nor validly delivered", key_str(key)));
                 }
             }
